@@ -1,5 +1,6 @@
 import Nri.Model.Balloons
 import Nri.Gen.BalloonFacts
+import Nri.Gen.BalloonReqFacts
 /-!
 C02 — balloons partition the CPUs and confine their containers.
 
@@ -227,5 +228,517 @@ theorem pinned_confined (s : BState) (h : Inv s) (i : Nat) (isolated scope : Lis
 
 -- non-vacuity: a concrete history ends in a non-trivial state satisfying the invariant
 example : (([Op.inflate 0 [1, 2], Op.inflate 1 [3], Op.deflate 0 [2]]).foldl stepOp (initB [0, 1, 2, 3])).free = [0, 2] := by decide
+
+
+/-! ## Request level: sizes, limits, membership (every allocator pick, every history) -/
+
+def DefWF (d : Def) : Prop := d.maxC > 0 → d.minC ≤ d.maxC
+
+theorem targetCount_bounds (d : Def) (h : DefWF d) (m : Nat) :
+    d.minC ≤ targetCount d m ∧ (d.maxC > 0 → targetCount d m ≤ d.maxC) := by
+  unfold DefWF at h
+  unfold targetCount
+  simp only []
+  repeat' split
+  all_goals omega
+
+theorem targetCount_mono (d : Def) (a b : Nat) (hab : a ≤ b) : targetCount d a ≤ targetCount d b := by
+  unfold targetCount
+  simp only []
+  repeat' split
+  all_goals omega
+
+/-- a target computed for a demand that fits under the type's maximum holds the demand -/
+theorem targetCount_fits (d : Def) (m : Nat) (hcap : d.maxC > 0 → m ≤ d.maxC * 1000) : m ≤ 1000 * targetCount d m := by
+  unfold targetCount
+  simp only []
+  repeat' split
+  all_goals omega
+
+/-- a balloon that already has the room keeps its size when re-targeted (`AllocateResources`
+skips the resize when `AvailMilliCpus() >= max(1, req)`) -/
+theorem targetCount_stable (d : Def) (h : DefWF d) (a b n : Nat) (hab : a ≤ b) (hn : n = targetCount d a) (hroom : b ≤ n * 1000) :
+    targetCount d b = n := by
+  unfold DefWF at h
+  subst hn
+  unfold targetCount at *
+  simp only [] at *
+  repeat' split at hroom
+  all_goals (repeat' split)
+  all_goals omega
+
+
+theorem setCpus_other (s : BState) (i j : Nat) (v : List Nat) (h : j ≠ i) : setCpus s i v j = s.cpus j := by
+  simp [setCpus, h]
+
+theorem inflate_other (s s' : BState) (i j : Nat) (add : List Nat) (hs : inflate s i add = some s') (h : j ≠ i) :
+    s'.cpus j = s.cpus j := by
+  unfold inflate at hs
+  split at hs
+  · simp only [Option.some.injEq] at hs; subst hs; exact setCpus_other s i j _ h
+  · cases hs
+
+theorem deflate_other (s s' : BState) (i j : Nat) (rem : List Nat) (hs : deflate s i rem = some s') (h : j ≠ i) :
+    s'.cpus j = s.cpus j := by
+  unfold deflate at hs
+  split at hs
+  · simp only [Option.some.injEq] at hs; subst hs; exact setCpus_other s i j _ h
+  · cases hs
+
+/-- what a successful `resizeBalloon` guarantees, whatever the allocator picked -/
+theorem resize_spec (r r' : RState) (i milli : Nat) (pick : List Nat) (h : Inv r.core) (hr : resize r i milli pick = some r') :
+    Inv r'.core ∧ (r'.core.cpus i).length = targetCount (r.defs (r.defOf i)) milli ∧
+    (∀ j, j ≠ i → r'.core.cpus j = r.core.cpus j) ∧
+    r'.defs = r.defs ∧ r'.defOf = r.defOf ∧ r'.members = r.members ∧ r'.live = r.live := by
+  unfold resize at hr
+  simp only [] at hr
+  split at hr
+  · rename_i heq
+    simp only [Option.some.injEq] at hr; subst hr
+    exact ⟨h, heq.symm, fun _ _ => rfl, rfl, rfl, rfl, rfl⟩
+  · split at hr
+    · split at hr
+      · rename_i c hc
+        split at hr
+        · rename_i hlen
+          simp only [Option.some.injEq] at hr; subst hr
+          exact ⟨inv_inflate _ _ _ _ h hc, hlen, fun j hj => inflate_other _ _ _ _ _ hc hj, rfl, rfl, rfl, rfl⟩
+        · cases hr
+      · cases hr
+    · split at hr
+      · rename_i c hc
+        split at hr
+        · rename_i hlen
+          simp only [Option.some.injEq] at hr; subst hr
+          exact ⟨inv_deflate _ _ _ _ h hc, hlen, fun j hj => deflate_other _ _ _ _ _ hc hj, rfl, rfl, rfl, rfl⟩
+        · cases hr
+      · cases hr
+
+/-- the request-level invariant: the property's size, limit and membership clauses -/
+structure RInv (r : RState) : Prop where
+  core : Inv r.core
+  wf : ∀ k, DefWF (r.defs k)
+  /-- every balloon has exactly the size its type and its members' requests demand -/
+  size : ∀ i ∈ r.live, (r.core.cpus i).length = sizeSpec (r.defs (r.defOf i)) (r.members i)
+  /-- the members' requests fit under the type's MaxCpus -/
+  cap : ∀ i ∈ r.live, (r.defs (r.defOf i)).maxC > 0 → requested (r.members i) ≤ (r.defs (r.defOf i)).maxC * 1000
+  /-- a container is a member of at most one balloon, once -/
+  uniq : ∀ i ∈ r.live, ∀ j ∈ r.live, ∀ c, c ∈ (r.members i).map (·.1) → c ∈ (r.members j).map (·.1) → i = j
+  once : ∀ i ∈ r.live, ((r.members i).map (·.1)).Nodup
+
+theorem requested_append (ms : List (String × Nat)) (c : String) (m : Nat) : requested (ms ++ [(c, m)]) = requested ms + m := by
+  simp [requested, List.foldl_append]
+
+theorem mem_allMembers (r : RState) (c : String) : c ∈ allMembers r ↔ ∃ i ∈ r.live, c ∈ (r.members i).map (·.1) := by
+  simp [allMembers, List.mem_flatMap]
+
+/-- **limits** - in every state satisfying the invariant each balloon respects MinCpus/MaxCpus -/
+theorem limits_hold (r : RState) (h : RInv r) (i : Nat) (hi : i ∈ r.live) :
+    (r.defs (r.defOf i)).minC ≤ (r.core.cpus i).length ∧
+    ((r.defs (r.defOf i)).maxC > 0 → (r.core.cpus i).length ≤ (r.defs (r.defOf i)).maxC) := by
+  rw [h.size i hi]
+  unfold sizeSpec
+  split <;> exact targetCount_bounds _ (h.wf _) _
+
+/-- **a non-empty balloon has at least one CPU and at least as many CPUs as its containers request** -/
+theorem nonempty_fits (r : RState) (h : RInv r) (i : Nat) (hi : i ∈ r.live) (hne : r.members i ≠ []) :
+    1 ≤ (r.core.cpus i).length ∧ requested (r.members i) ≤ 1000 * (r.core.cpus i).length := by
+  rw [h.size i hi]
+  unfold sizeSpec
+  have : (r.members i).isEmpty = false := by cases hm : r.members i <;> simp_all
+  simp only [this, Bool.false_eq_true, if_false]
+  have hcap := h.cap i hi
+  have hfit := targetCount_fits (r.defs (r.defOf i)) (max 1 (requested (r.members i))) (by
+    intro hm
+    have := hcap hm
+    omega)
+  have h1 : 1 ≤ max 1 (requested (r.members i)) := Nat.le_max_left _ _
+  have h2 : requested (r.members i) ≤ max 1 (requested (r.members i)) := Nat.le_max_right _ _
+  generalize targetCount (r.defs (r.defOf i)) (max 1 (requested (r.members i))) = t at hfit ⊢
+  generalize max 1 (requested (r.members i)) = mx at hfit h1 h2
+  omega
+
+
+theorem updM_same (f : Nat → List (String × Nat)) (i : Nat) (v : List (String × Nat)) : updM f i v i = v := by simp [updM]
+theorem updM_other (f : Nat → List (String × Nat)) (i j : Nat) (v : List (String × Nat)) (h : j ≠ i) : updM f i v j = f j := by simp [updM, h]
+
+theorem requested_filter_le (ms : List (String × Nat)) (p : String × Nat → Bool) : requested (ms.filter p) ≤ requested ms := by
+  have gen : ∀ (l : List (String × Nat)) (a b : Nat), a ≤ b →
+      ((l.filter p).map (·.2)).foldl (· + ·) a ≤ (l.map (·.2)).foldl (· + ·) b := by
+    intro l
+    induction l with
+    | nil => intro a b h; simpa using h
+    | cons x xs ih =>
+      intro a b h
+      simp only [List.filter_cons]
+      split
+      · simp only [List.map_cons, List.foldl_cons]; exact ih _ _ (by omega)
+      · simp only [List.map_cons, List.foldl_cons]; exact ih _ _ (by omega)
+  exact gen ms 0 0 (Nat.le_refl 0)
+
+theorem targetCount_min (d : Def) (h : DefWF d) : targetCount d (d.minC * 1000) = targetCount d 0 := by
+  unfold DefWF at h
+  unfold targetCount
+  simp only []
+  repeat' split
+  all_goals omega
+
+/-- **AllocateResources preserves the invariant**, for the balloon the fill chain chose and every
+allocator pick -/
+theorem assign_inv (r r' : RState) (i : Nat) (ctr : String) (milli : Nat) (pick : List Nat)
+    (h : RInv r) (ha : assign r i ctr milli pick = some r') : RInv r' := by
+  unfold assign at ha
+  simp only [] at ha
+  split at ha; · cases ha
+  rename_i hlive
+  split at ha; · cases ha
+  rename_i hfresh
+  split at ha; · cases ha
+  rename_i hguard
+  have hi : i ∈ r.live := by simpa using hlive
+  have hnew : ∀ j ∈ r.live, ctr ∉ (r.members j).map (·.1) := by
+    intro j hj hc
+    have : ctr ∈ allMembers r := (mem_allMembers r ctr).mpr ⟨j, hj, hc⟩
+    simp [this] at hfresh
+  -- the state before the member is appended
+  have key : ∀ r1 : RState, Inv r1.core → r1.defs = r.defs → r1.defOf = r.defOf → r1.members = r.members → r1.live = r.live →
+      (∀ j, j ≠ i → r1.core.cpus j = r.core.cpus j) →
+      (r1.core.cpus i).length = targetCount (r.defs (r.defOf i)) (max 1 (requested (r.members i) + milli)) →
+      RInv { r1 with members := updM r1.members i (r1.members i ++ [(ctr, milli)]) } := by
+    intro r1 hc hd hdo hm hl hoth hlen
+    refine ⟨hc, ?_, ?_, ?_, ?_, ?_⟩
+    · intro k; simp only [hd]; exact h.wf k
+    · intro j hj
+      simp only [hl] at hj
+      simp only [hd, hdo, hm]
+      by_cases hji : j = i
+      · subst hji
+        rw [updM_same, hlen]
+        unfold sizeSpec
+        simp [requested_append]
+      · rw [updM_other _ _ _ _ hji, hoth j hji]
+        exact h.size j hj
+    · intro j hj hmax
+      simp only [hl] at hj
+      simp only [hd, hdo, hm] at hmax ⊢
+      by_cases hji : j = i
+      · subst hji
+        rw [updM_same, requested_append]
+        have : ¬ maxAvail (r.defs (r.defOf j)) (r.core.cpus j).length r.core.free.length < requested (r.members j) + milli := hguard
+        unfold maxAvail at this
+        have hne : ¬ (r.defs (r.defOf j)).maxC = 0 := by omega
+        simp only [hne, if_false] at this
+        omega
+      · rw [updM_other _ _ _ _ hji]
+        exact h.cap j hj hmax
+    · intro j hj k hk c hcj hck
+      simp only [hl] at hj hk
+      simp only [hm] at hcj hck
+      by_cases hji : j = i <;> by_cases hki : k = i
+      · rw [hji, hki]
+      · subst hji
+        rw [updM_same] at hcj
+        rw [updM_other _ _ _ _ hki] at hck
+        simp only [List.map_append, List.map_cons, List.map_nil, List.mem_append, List.mem_singleton] at hcj
+        rcases hcj with hcj | rfl
+        · exact h.uniq j hj k hk c hcj hck
+        · exact absurd hck (hnew k hk)
+      · subst hki
+        rw [updM_same] at hck
+        rw [updM_other _ _ _ _ hji] at hcj
+        simp only [List.map_append, List.map_cons, List.map_nil, List.mem_append, List.mem_singleton] at hck
+        rcases hck with hck | rfl
+        · exact h.uniq j hj k hk c hcj hck
+        · exact absurd hcj (hnew j hj)
+      · rw [updM_other _ _ _ _ hji] at hcj
+        rw [updM_other _ _ _ _ hki] at hck
+        exact h.uniq j hj k hk c hcj hck
+    · intro j hj
+      simp only [hl] at hj
+      simp only [hm]
+      by_cases hji : j = i
+      · subst hji
+        rw [updM_same]
+        simp only [List.map_append, List.map_cons, List.map_nil]
+        refine List.nodup_append.mpr ⟨h.once j hj, by simp, ?_⟩
+        intro a hamem b hb
+        simp only [List.mem_singleton] at hb
+        subst hb
+        intro e; subst e
+        exact hnew j hj hamem
+      · rw [updM_other _ _ _ _ hji]; exact h.once j hj
+  split at ha
+  · -- the balloon is resized
+    rename_i hsmall
+    cases hrs : resize r i (max 1 (requested (r.members i) + milli)) pick with
+    | none => rw [hrs] at ha; cases ha
+    | some r1 =>
+      rw [hrs] at ha
+      simp only [Option.map_some, Option.some.injEq] at ha
+      subst ha
+      obtain ⟨hc, hlen, hoth, hd, hdo, hm, hl⟩ := resize_spec r r1 i _ pick h.core hrs
+      exact key r1 hc hd hdo hm hl hoth hlen
+  · -- it already has the room: its size must already be the new target
+    rename_i hroom
+    simp only [Option.map_some, Option.some.injEq] at ha
+    subst ha
+    refine key r h.core rfl rfl rfl rfl (fun _ _ => rfl) ?_
+    have hsz := h.size i hi
+    have hroom' : max 1 (requested (r.members i) + milli) ≤ (r.core.cpus i).length * 1000 := by omega
+    unfold sizeSpec at hsz
+    split at hsz
+    · exact (targetCount_stable _ (h.wf _) 0 _ _ (Nat.zero_le _) hsz hroom').symm
+    · refine (targetCount_stable _ (h.wf _) (max 1 (requested (r.members i))) _ _ ?_ hsz hroom').symm
+      omega
+
+
+theorem filter_ids_sub (ms : List (String × Nat)) (p : String × Nat → Bool) (c : String)
+    (h : c ∈ (ms.filter p).map (·.1)) : c ∈ ms.map (·.1) := by
+  obtain ⟨m, hm, rfl⟩ := List.mem_map.mp h
+  exact List.mem_map.mpr ⟨m, (List.mem_filter.mp hm).1, rfl⟩
+
+/-- **ReleaseResources preserves the invariant** (the emptied balloon is deflated to its minimum, a
+still populated one is re-sized to its remaining members' requests) -/
+theorem dismiss_inv (r r' : RState) (i : Nat) (ctr : String) (pick : List Nat)
+    (h : RInv r) (hd : dismiss r i ctr pick = some r') : RInv r' := by
+  unfold dismiss at hd
+  simp only [] at hd
+  split at hd; · cases hd
+  rename_i hlive
+  split at hd; · cases hd
+  have hi : i ∈ r.live := by simpa using hlive
+  -- common tail: a resize of the state with the member removed, to the size the spec demands
+  have key : ∀ milli, resize { r with members := updM r.members i ((r.members i).filter (fun m => m.1 != ctr)) } i milli pick = some r' →
+      targetCount (r.defs (r.defOf i)) milli = sizeSpec (r.defs (r.defOf i)) ((r.members i).filter (fun m => m.1 != ctr)) → RInv r' := by
+    intro milli hrs hspec
+    obtain ⟨hc, hlen, hoth, hdf, hdo, hm, hl⟩ := resize_spec { r with members := updM r.members i ((r.members i).filter (fun m => m.1 != ctr)) } r' i milli pick h.core hrs
+    simp only [] at hlen hoth hdf hdo hm hl
+    refine ⟨hc, ?_, ?_, ?_, ?_, ?_⟩
+    · intro k; rw [hdf]; exact h.wf k
+    · intro j hj
+      rw [hl] at hj
+      rw [hdf, hdo, hm]
+      by_cases hji : j = i
+      · subst hji; rw [updM_same, hlen, hspec]
+      · rw [updM_other _ _ _ _ hji, hoth j hji]; exact h.size j hj
+    · intro j hj hmax
+      rw [hl] at hj
+      rw [hdf, hdo] at hmax
+      rw [hdf, hdo, hm]
+      by_cases hji : j = i
+      · subst hji
+        rw [updM_same]
+        exact Nat.le_trans (requested_filter_le _ _) (h.cap j hj hmax)
+      · rw [updM_other _ _ _ _ hji]; exact h.cap j hj hmax
+    · intro j hj k hk c hcj hck
+      rw [hl] at hj hk
+      rw [hm] at hcj hck
+      have hcj' : c ∈ (r.members j).map (·.1) := by
+        by_cases hji : j = i
+        · subst hji; rw [updM_same] at hcj; exact filter_ids_sub _ _ _ hcj
+        · rw [updM_other _ _ _ _ hji] at hcj; exact hcj
+      have hck' : c ∈ (r.members k).map (·.1) := by
+        by_cases hki : k = i
+        · subst hki; rw [updM_same] at hck; exact filter_ids_sub _ _ _ hck
+        · rw [updM_other _ _ _ _ hki] at hck; exact hck
+      exact h.uniq j hj k hk c hcj' hck'
+    · intro j hj
+      rw [hl] at hj
+      rw [hm]
+      by_cases hji : j = i
+      · subst hji
+        rw [updM_same]
+        exact (List.Sublist.map _ List.filter_sublist).nodup (h.once j hj)
+      · rw [updM_other _ _ _ _ hji]; exact h.once j hj
+  split at hd
+  · rename_i hempty
+    refine key 0 hd ?_
+    unfold sizeSpec; simp [hempty]
+  · rename_i hne
+    refine key _ hd ?_
+    unfold sizeSpec
+    have : ((r.members i).filter (fun m => m.1 != ctr)).isEmpty = false := by simpa using hne
+    simp [this]
+
+theorem countOf_unused : True := trivial
+
+/-- **newBalloon preserves the invariant**: the new instance has exactly its type's minimum size -/
+theorem create_inv (r r' : RState) (i k : Nat) (pick : List Nat) (h : RInv r) (hc : create r i k pick = some r') : RInv r' := by
+  unfold create at hc
+  simp only [] at hc
+  split at hc; · cases hc
+  rename_i hnl
+  split at hc; · cases hc
+  rename_i hemp
+  split at hc; · cases hc
+  have hni : i ∉ r.live := by simpa using hnl
+  have hme : r.members i = [] := by
+    cases hm : r.members i with
+    | nil => rfl
+    | cons x xs => simp [hm] at hemp
+  obtain ⟨hcore, hlen, hoth, hdf, hdo, hm, hl⟩ := resize_spec { r with defOf := fun j => if j = i then k else r.defOf j, live := i :: r.live } r' i _ pick h.core hc
+  simp only [if_true] at hlen hoth hdf hdo hm hl
+  have hmem : ∀ j, j ∈ r'.live → j = i ∨ (j ∈ r.live ∧ j ≠ i) := by
+    intro j hj
+    rw [hl] at hj
+    rcases List.mem_cons.mp hj with e | hj
+    · exact Or.inl e
+    · exact Or.inr ⟨hj, fun e => hni (e ▸ hj)⟩
+  refine ⟨hcore, ?_, ?_, ?_, ?_, ?_⟩
+  · intro k'; rw [hdf]; exact h.wf k'
+  · intro j hj
+    rw [hdf, hdo, hm]
+    rcases hmem j hj with rfl | ⟨hjl, hji⟩
+    · simp only [if_true]
+      rw [hlen, hme, targetCount_min _ (h.wf k)]
+      simp [sizeSpec]
+    · simp only [hji, if_false]
+      rw [hoth j hji]; exact h.size j hjl
+  · intro j hj hmax
+    rw [hdf, hdo] at hmax
+    rw [hdf, hdo, hm]
+    rcases hmem j hj with rfl | ⟨hjl, hji⟩
+    · rw [hme]; simp [requested]
+    · simp only [hji, if_false] at hmax ⊢
+      exact h.cap j hjl hmax
+  · intro j hj k' hk c hcj hck
+    rw [hm] at hcj hck
+    rcases hmem j hj with rfl | ⟨hjl, _⟩
+    · rw [hme] at hcj; cases hcj
+    · rcases hmem k' hk with rfl | ⟨hkl, _⟩
+      · rw [hme] at hck; cases hck
+      · exact h.uniq j hjl k' hkl c hcj hck
+  · intro j hj
+    rw [hm]
+    rcases hmem j hj with rfl | ⟨hjl, _⟩
+    · rw [hme]; exact List.nodup_nil
+    · exact h.once j hjl
+
+/-- **freeBalloon/deleteBalloon preserves the invariant** -/
+theorem delete_inv (r r' : RState) (i : Nat) (h : RInv r) (hd : delete r i = some r') : RInv r' := by
+  unfold delete at hd
+  split at hd; · cases hd
+  split at hd; · cases hd
+  split at hd; · cases hd
+  simp only [Option.some.injEq] at hd
+  subst hd
+  have hsub : ∀ j, j ∈ r.live.filter (· != i) → j ∈ r.live ∧ j ≠ i := by
+    intro j hj
+    have := List.mem_filter.mp hj
+    exact ⟨this.1, by simpa using this.2⟩
+  refine ⟨inv_delete r.core i h.core, h.wf, ?_, ?_, ?_, ?_⟩
+  · intro j hj
+    obtain ⟨hjl, hji⟩ := hsub j hj
+    simp only [deleteBalloon, setCpus, hji, if_false]
+    exact h.size j hjl
+  · intro j hj; exact h.cap j (hsub j hj).1
+  · intro j hj k hk; exact h.uniq j (hsub j hj).1 k (hsub k hk).1
+  · intro j hj; exact h.once j (hsub j hj).1
+
+/-- the requests the balloons policy serves, with the fill chain's choice and the allocator's picks
+as arbitrary oracle arguments; a refused step leaves the state as it was -/
+inductive ROp where
+  | assign (i : Nat) (ctr : String) (milli : Nat) (pick : List Nat)
+  | dismiss (i : Nat) (ctr : String) (pick : List Nat)
+  | create (i k : Nat) (pick : List Nat)
+  | delete (i : Nat)
+
+def stepR (r : RState) : ROp → RState
+  | .assign i c m p => (assign r i c m p).getD r
+  | .dismiss i c p => (dismiss r i c p).getD r
+  | .create i k p => (create r i k p).getD r
+  | .delete i => (delete r i).getD r
+
+theorem rinv_step (r : RState) (o : ROp) (h : RInv r) : RInv (stepR r o) := by
+  cases o with
+  | assign i c m p =>
+    simp only [stepR]
+    cases hs : assign r i c m p with
+    | none => exact h
+    | some r' => exact assign_inv r r' i c m p h hs
+  | dismiss i c p =>
+    simp only [stepR]
+    cases hs : dismiss r i c p with
+    | none => exact h
+    | some r' => exact dismiss_inv r r' i c p h hs
+  | create i k p =>
+    simp only [stepR]
+    cases hs : create r i k p with
+    | none => exact h
+    | some r' => exact create_inv r r' i k p h hs
+  | delete i =>
+    simp only [stepR]
+    cases hs : delete r i with
+    | none => exact h
+    | some r' => exact delete_inv r r' i h hs
+
+/-- the configured policy before any balloon exists -/
+def initR (allowed : List Nat) (defs : Nat → Def) : RState := ⟨initB allowed, defs, fun _ => 0, fun _ => [], []⟩
+
+theorem rinv_init (allowed : List Nat) (defs : Nat → Def) (hwf : ∀ k, DefWF (defs k)) : RInv (initR allowed defs) :=
+  ⟨inv_init allowed, hwf, fun _ h => (by cases h), fun _ h => (by cases h), fun _ h => (by cases h), fun _ h => (by cases h)⟩
+
+/-- **every history**: for all available CPU sets, all well-formed balloon types, all sequences of
+balloon creations/deletions and container assignments/releases, all fill-chain choices and all
+allocator picks: the balloons partition the available CPUs, every balloon has exactly the size its
+type and its members' requests demand (hence MinCpus ≤ size ≤ MaxCpus, a non-empty balloon has at least one
+CPU and at least as many CPUs as its containers request), and no container is a member twice -/
+theorem rinv_run (allowed : List Nat) (defs : Nat → Def) (hwf : ∀ k, DefWF (defs k)) (ops : List ROp) :
+    RInv (ops.foldl stepR (initR allowed defs)) := by
+  have : ∀ r, RInv r → RInv (ops.foldl stepR r) := by
+    induction ops with
+    | nil => intro r h; exact h
+    | cons o os ih => intro r h; exact ih _ (rinv_step r o h)
+  exact this _ (rinv_init allowed defs hwf)
+
+/-- non-vacuity: a type with 1..4 CPUs; create an instance (1 CPU), assign 1500m (grows to 2), assign
+300m (fits, no resize), release the first (shrinks to 1) -/
+example :
+    let d : Def := ⟨1, 4, 0, 0⟩
+    let r := [ROp.create 0 0 [0], .assign 0 "a" 1500 [1], .assign 0 "b" 300 [], .dismiss 0 "a" [1]].foldl stepR (initR [0, 1, 2, 3] (fun _ => d))
+    r.core.cpus 0 = [0] ∧ r.core.free = [2, 3, 1] ∧ r.members 0 = [("b", 300)] ∧ r.live = [0] := by
+  decide
+
+end Nri.Balloons
+
+/-! ### the source shapes the request-level model was written against (regenerated facts must equal them) -/
+namespace Nri.Balloons.Expect
+def resizeCount : List String := ["oldCpuCount := bln.Cpus.Size()", "newCpuCount := (newMilliCpus + 999) / 1000", "if bln.Def.MaxCpus > NoLimit && newCpuCount > bln.Def.MaxCpus", "> newCpuCount = bln.Def.MaxCpus", "if bln.Def.MinCpus > 0 && newCpuCount < bln.Def.MinCpus", "> newCpuCount = bln.Def.MinCpus", "if oldCpuCount == newCpuCount", "cpuCountDelta := newCpuCount - oldCpuCount", "if cpuCountDelta > 0", "> newCpus, err := p.cpuAllocator.AllocateCpus(&addFromCpus, newCpuCount-oldCpuCount, bln.Def.AllocatorPriority.Value().Option())", "else"]
+def allocate : List String := ["if c.PreserveCpuResources()", "> return nil", "if p.bpoptions.Preserve != nil", "> rule, err := p.bpoptions.Preserve.MatchContainer(c)", "> if err != nil", "> else", "> > if rule != \"\"", "> > > return nil", "bln, err := p.allocateBalloon(c)", "if err != nil", "> return balloonsError(…)", "if bln == nil", "> return balloonsError(…)", "reqMilliCpus := p.containerRequestedMilliCpus(c.GetID()) + p.requestedMilliCpus(bln)", "if bln.AvailMilliCpus() < max(1, reqMilliCpus)", "> if err := p.resizeBalloon(bln, max(1, reqMilliCpus)); err != nil", "> > if bln.ContainerCount() == 0", "> > > p.freeBalloon(bln)", "> > return balloonsError(…)", "p.assignContainer(c, bln)", "return nil"]
+def release : List String := ["if bln := p.balloonByContainer(c); bln != nil", "> p.dismissContainer(c, bln)", "> if bln.ContainerCount() == 0", "> > if err := p.resizeBalloon(bln, 0); err != nil", "> > p.freeBalloon(bln)", "> else", "> > if err := p.resizeBalloon(bln, max(1, p.requestedMilliCpus(bln))); err != nil", "> > > return balloonsError(…)", "else", "return nil"]
+def maxAvail : List String := ["if bln.Def.MaxCpus == NoLimit", "> return (bln.Cpus.Size() + freeCpus.Size()) * 1000", "return bln.Def.MaxCpus * 1000"]
+def avail : List String := ["return bln.Cpus.Size() * 1000"]
+def maxFree : List String := ["return bln.MaxAvailMilliCpus(p.freeCpus) - p.requestedMilliCpus(bln)"]
+def free : List String := ["return bln.AvailMilliCpus() - p.requestedMilliCpus(bln)"]
+def requestedSum : List String := ["cpuRequested := 0", "range bln.ContainerIDs()", "> cpuRequested += p.containerRequestedMilliCpus(cID)", "return cpuRequested"]
+def freeBalloon : List String := ["bln.PodIDs = make(map[string][]string)", "if len(blnsSameDef) > bln.Def.MinBalloons", "> p.deleteBalloon(bln)"]
+def assign : List String := ["bln.PodIDs[podID] = append(bln.PodIDs[podID], c.GetID())", "p.updatePinning(bln)"]
+def dismissC : List String := ["if err := p.memAllocator.Release(c.GetID()); err != nil", "bln.PodIDs[podID] = removeString(bln.PodIDs[podID], c.GetID())", "if len(bln.PodIDs[podID]) == 0", "> delete(bln.PodIDs, podID)"]
+def newBalloon : List String := ["if blnDef.MaxBalloons > NoLimit && blnDef.MaxBalloons <= len(blnsOfDef)", "> return nil, balloonsError(…)", "if err := p.resizeBalloon(bln, blnDef.MinCpus*1000); err != nil"]
+def fillTests : List String := ["reqMilliCpus := p.containerRequestedMilliCpus(c.GetID())", "case FillNewBalloon, FillNewBalloonMust", "if len(bln.PodIDs) == 0 && p.maxFreeMilliCpus(bln) >= reqMilliCpus", "if newBln.MaxAvailMilliCpus(p.freeCpus) < reqMilliCpus", "case FillSameGroup", "return balloonsByFunc(p.balloons, func(bln *Balloon) bool { return bln.Groups[group] > 0 && bln.Def == blnDef && p.maxFreeMilliCpus(bln) >= reqMilliCpus }), nil", "case FillSameNamespace", "return balloonsByFunc(p.balloonsByNamespace(c.GetNamespace()), func(bln *Balloon) bool { return bln.Def == blnDef && p.maxFreeMilliCpus(bln) >= reqMilliCpus }), nil", "case FillSamePod", "return balloonsByFunc(p.balloonsByPod(pod), func(bln *Balloon) bool { return bln.Def == blnDef && p.maxFreeMilliCpus(bln) >= reqMilliCpus }), nil", "case FillBalanced", "return balloonsByFunc(balloons, func(bln *Balloon) bool { return p.freeMilliCpus(bln) >= reqMilliCpus }), nil", "case FillBalancedInflate", "return balloonsByFunc(balloons, func(bln *Balloon) bool { return p.maxFreeMilliCpus(bln) >= reqMilliCpus }), nil"]
+end Nri.Balloons.Expect
+
+namespace Nri.Balloons
+
+/-- the regenerated statement skeletons of the sizing code are the ones the request-level model follows: the
+new CPU count `(milli+999)/1000` capped by MaxCpus then raised to MinCpus; AllocateResources resizes to
+`max(1, request + requested)` only when `AvailMilliCpus` is smaller, and rolls an empty balloon back on failure;
+ReleaseResources deflates an emptied balloon to 0 and frees it, else re-sizes to `max(1, requested)`;
+`MaxAvailMilliCpus`, the room tests of every fill method; MaxBalloons / MinBalloons tests -/
+theorem gen_balloon_req_facts_ok :
+    Nri.Gen.BalloonReq.resizeCount = Expect.resizeCount ∧
+    Nri.Gen.BalloonReq.allocate = Expect.allocate ∧
+    Nri.Gen.BalloonReq.release = Expect.release ∧
+    Nri.Gen.BalloonReq.maxAvail = Expect.maxAvail ∧
+    Nri.Gen.BalloonReq.avail = Expect.avail ∧
+    Nri.Gen.BalloonReq.maxFree = Expect.maxFree ∧
+    Nri.Gen.BalloonReq.free = Expect.free ∧
+    Nri.Gen.BalloonReq.requestedSum = Expect.requestedSum ∧
+    Nri.Gen.BalloonReq.freeBalloon = Expect.freeBalloon ∧
+    Nri.Gen.BalloonReq.assign = Expect.assign ∧
+    Nri.Gen.BalloonReq.dismissC = Expect.dismissC ∧
+    Nri.Gen.BalloonReq.newBalloon = Expect.newBalloon ∧
+    Nri.Gen.BalloonReq.fillTests = Expect.fillTests := by
+  and_intros <;> rfl
 
 end Nri.Balloons
